@@ -862,6 +862,8 @@ func (req *IdpAuthnRequest) MakeAssertionEl() error {
 		return err
 	}
 
+	// sign the assertion as it is, without the signature an earlier call attached
+	req.Assertion.Signature = nil
 	assertionEl := req.Assertion.Element()
 
 	signedAssertionEl, err := signingContext.SignEnveloped(assertionEl)
@@ -1061,8 +1063,11 @@ func (req *IdpAuthnRequest) MakeResponse() error {
 		},
 	}
 
+	// An element has one parent, and AssertionEl may already sit in the response an earlier
+	// call built: this response gets its own copy.
+	assertionEl := req.AssertionEl.Copy() // either an EncryptedAssertion or Assertion element
 	responseEl := response.Element()
-	responseEl.AddChild(req.AssertionEl) // AssertionEl either an EncryptedAssertion or Assertion element
+	responseEl.AddChild(assertionEl)
 
 	// Sign the response element (we've already signed the Assertion element)
 	{
@@ -1079,7 +1084,7 @@ func (req *IdpAuthnRequest) MakeResponse() error {
 		sigEl := signedResponseEl.ChildElements()[len(signedResponseEl.ChildElements())-1]
 		response.Signature = sigEl
 		responseEl = response.Element()
-		responseEl.AddChild(req.AssertionEl)
+		responseEl.AddChild(assertionEl)
 	}
 
 	req.ResponseEl = responseEl
